@@ -24,7 +24,10 @@ package pomsg
 //@     invariant[children-stay-fine;C11] forall(i, 0, len(ch), typeis(ch[i], *ast.MsgPluralNode) ==> i == 0 && len(unbox(ch[i], *ast.MsgPluralNode).Cases) == 1 && unbox(ch[i], *ast.MsgPluralNode).Cases[0].Value == 1)
 
 // the placeholders that soymsg.Parts finds in the body's msgid are the body's
-// placeholder nodes, by name and in order, or the body is refused.
+// placeholder nodes, by name and in order, or the body is refused. A body with
+// a plural in it (a plural nested in a plural case) is refused as well: writeph
+// writes nothing for it, so the msgid would drop it and a translated render
+// would lose the text the untranslated render prints.
 //@ func readsBack
 //@   props C11
 //@   nosafety
@@ -37,9 +40,11 @@ package pomsg
 //@   at call pomsg.writeph#0 assert[each-child-written-as-the-msgid-writes-it;C11] arg1 == ch[rangeindex + 1]
 //@   at call pomsg.writeph#0 after set written = written + 1
 //@   at call soymsg.Parts#0 assert[read-with-the-reader-of-translations-after-all-children;C11] written == len(ch)
-//@   at call fmt.Errorf#0 assert[refused-only-for-a-placeholder-that-is-not-the-next-node;C11] i >= len(names) || names[i] != unbox(part, soymsg.PlaceholderPart).Name
+//@   at call fmt.Errorf#1 assert[refused-only-for-a-placeholder-that-is-not-the-next-node;C11] i >= len(names) || names[i] != unbox(part, soymsg.PlaceholderPart).Name
+//@   ensures[a-body-with-a-plural-in-it-is-refused;C11] isnil(result) ==> forall(i, 0, len(ch), !typeis(ch[i], *ast.MsgPluralNode))
 //@   loop 0
 //@     invariant[children-written-so-far;C11] written == rangeindex + 1 && written <= len(ch) && fresh(names)
+//@     invariant[no-plural-so-far;C11] forall(i, 0, rangeindex + 1, !typeis(ch[i], *ast.MsgPluralNode))
 //@   ghost ps []soymsg.Part = nil
 //@   at call soymsg.Parts#0 after set ps = res
 //@   loop 1
